@@ -153,6 +153,16 @@ func (ep *Endpoint) Got() []byte {
 	return append([]byte(nil), ep.got...)
 }
 
+// TakeGot returns everything Read has returned so far and forgets it.
+func (ep *Endpoint) TakeGot() []byte {
+	ep.mu.Lock()
+	defer ep.mu.Unlock()
+	g := ep.got
+	ep.got = nil
+	ep.reads = nil
+	return g
+}
+
 // GotLen returns the number of bytes Read has returned so far.
 func (ep *Endpoint) GotLen() int {
 	ep.mu.Lock()
